@@ -1,5 +1,26 @@
-(* C20 (first part) — timeout defaulting: non-positive settings fall back to the default of 5 s. *)
-From HC Require Import Transport.
+(* C20 — stale-while-revalidate answers at once and revalidates once, within the timeout.
+
+   Sequential model (Transport.v, Run.v):
+   C20_answers_at_once: serving under stale-while-revalidate is "spawn the background program, return the
+   stored response" — nothing (no store operation, no origin call, no clock reading) lies between the spawn
+   and the return.  C20_run: in the sequential semantics the exchange returns at the very clock reading it
+   started at, without consuming any origin reply, for EVERY origin script (all latencies, all outcomes), and
+   leaves exactly one background program pending.  C20_one_background_request: that program performs exactly
+   one origin call on every path, for the request with the stored validators attached (If-None-Match whenever
+   an ETag is stored, If-Modified-Since whenever Last-Modified is).  C20_request_bounded: a background call
+   lasts min(latency, T) and ends in an error when the latency exceeds T; C20_timeout_default: T is the
+   setting, or 5 s for a non-positive or missing setting.
+   Goroutine model (Swr.v): for every interleaving of supervisor, worker, context and origin, with errc of
+   capacity >= 1: C20_no_deadlock (a state without successor is final: both goroutines have returned —
+   nobody stays blocked, whether the origin answers, fails, or never answers), C20_short (every execution has
+   at most five steps), C20_one_call; C20_unbuffered_can_leak shows the capacity is necessary.
+   Timing: C20_timing — the background request ends within [0, T] of its start for every latency, setting
+   and cancellation time of the caller's context.
+   The run compares swr_predict with the real transport in virtual time (testing/synctest) over a grid of
+   settings x latencies (0 .. beyond the timeout, never) x caller-context cancellations (before, at once,
+   later) x outcomes x validators, counting the goroutines of the library left in the bubble. *)
+From HC Require Import Transport Run Swr.
+From HC.Proofs Require Import Paths HeaderProofs ValidationProofs SwrProofs.
 Open Scope Z_scope.
 
 Theorem C20_timeout_default : forall t,
@@ -11,3 +32,137 @@ Proof.
   - replace (Z.max t 0) with t by lia. destruct (Z.eqb_spec t 0); [lia|reflexivity].
 Qed.
 Print Assumptions C20_timeout_default.
+
+Theorem C20_answers_at_once : forall q stored key f cc now qual,
+  exists resp,
+    handle_stale_while_revalidate q stored key f cc now qual =
+      Spawn (background_revalidate (with_conditional_headers q (e_hdr stored)) stored key f cc) (Ret (OResp resp)) /\
+    p_status resp = e_status stored /\ p_body resp = e_body stored /\
+    hvalues status_header (p_hdr resp) = [bs "STALE"].
+Proof.
+  intros. eexists. split; [reflexivity|]. cbn [response_of entry_with_hdr p_status p_body p_hdr e_status e_body e_hdr].
+  repeat split. apply status_values.
+Qed.
+Print Assumptions C20_answers_at_once.
+
+(* the sequential semantics: whatever the origin script holds, the exchange returns at the clock reading it
+   started at, consumes no origin reply, and leaves one background program *)
+Theorem C20_run : forall q w refs sorted i r e,
+  is_request_method_understood q = true ->
+  get_refs (w_store w) (make_url_key (q_url q)) = Some refs ->
+  drop_nil_refs refs <> [] ->
+  vary_headers_match (strip_refs (drop_nil_refs refs)) (q_hdr q) = Some (sorted, Some i) ->
+  nth_error sorted (Z.to_nat i) = Some r ->
+  get_entry (w_store w) (r_id r) = Some e ->
+  decide_hit q e (w_clock w) = DServeSWR ->
+  exists w' out bg, run None (round_trip q) w = (Done (OResp out), w') /\
+    w_clock w' = w_clock w /\ w_calls w' = w_calls w /\ w_script w' = w_script w /\ w_store w' = w_store w /\
+    w_pending w' = w_pending w ++ [bg] /\
+    bg = background_revalidate (with_conditional_headers q (e_hdr e)) e (make_url_key (q_url q))
+           (calculate_freshness e (parse_cc (q_hdr q)) (parse_cc (e_hdr e)) (w_clock w)) (parse_cc (q_hdr q)) /\
+    p_status out = e_status e /\ p_body out = e_body e.
+Proof.
+  intros q w refs sorted i r e Hm Hg Hne Hv Hn He Hdec.
+  unfold round_trip, get_refs_clean. rewrite Hm. cbn [negb run]. rewrite Hg. cbn [option_map].
+  destruct (drop_nil_refs refs) as [|x l] eqn:Ed; [congruence|].
+  assert (Hnn : has_nil_ref (x :: l) = false).
+  { rewrite <- Ed. clear. induction refs as [|[r0|] l0 IH]; cbn; auto. }
+  rewrite Hnn, Hv, Hn. cbn [run]. cbn [w_store log_event set_store]. rewrite He.
+  unfold handle_cache_hit. cbn [run]. cbn [w_clock log_event set_store]. rewrite Hdec.
+  unfold handle_stale_while_revalidate. cbn [run].
+  eexists _, _, _. split; [reflexivity|]. cbn. repeat split; reflexivity.
+Qed.
+Print Assumptions C20_run.
+
+(* exactly one origin call on every path of the background program, for the conditional request *)
+Theorem C20_one_background_request : forall q2 stored key f cc,
+  exists c, background_revalidate q2 stored key f cc = Now (fun start => Origin q2 (c start)) /\
+            forall start rep, NoOrigin (c start rep).
+Proof.
+  intros. eexists. split; [reflexivity|]. intros start rep. cbv beta.
+  apply NO_Now. intros stop. destruct rep as [|r]; [apply NO_Ret|].
+  apply NO_GetEntry. intros own. destruct own as [own|]; [|apply NO_Ret].
+  unfold get_refs_clean. apply NO_GetRefs. intros ans.
+  apply NoOrigin_bind; [apply hvr_noorigin|intros; apply NO_Ret].
+Qed.
+Print Assumptions C20_one_background_request.
+
+Lemma hget_of_hvalues n h v vs : hvalues (canonical_key n) h = v :: vs -> hget n h = v.
+Proof. unfold hget. intros ->. reflexivity. Qed.
+
+Theorem C20_conditional : forall q sh,
+  (hget (bs "ETag") sh <> [] ->
+     hget (bs "If-None-Match") (q_hdr (with_conditional_headers q sh)) = hget (bs "ETag") sh) /\
+  (hget (bs "Last-Modified") sh <> [] ->
+     hget (bs "If-Modified-Since") (q_hdr (with_conditional_headers q sh)) = hget (bs "Last-Modified") sh).
+Proof.
+  intros q sh. unfold with_conditional_headers. cbn [q_hdr]. split; intros H.
+  - destruct (hget (bs "ETag") sh) as [|c et] eqn:Ee; [congruence|].
+    destruct (hget (bs "Last-Modified") sh) as [|c2 lm] eqn:El.
+    + apply (hget_of_hvalues _ _ _ []). apply hvalues_hset_same.
+    + apply (hget_of_hvalues _ _ _ []). rewrite hvalues_hset_other by (vm_compute; reflexivity). apply hvalues_hset_same.
+  - destruct (hget (bs "Last-Modified") sh) as [|c2 lm] eqn:El; [congruence|].
+    apply (hget_of_hvalues _ _ _ []). apply hvalues_hset_same.
+Qed.
+Print Assumptions C20_conditional.
+
+(* a background call under limit T lasts min(latency, T); beyond T it is an error *)
+Theorem C20_request_bounded : forall T q w delay plain cond rest,
+  0 <= T -> w_script w = (delay, plain, cond) :: rest -> 0 <= delay ->
+  let '(rep, w') := do_origin (Some T) q w in
+  w_clock w' - w_clock w = Z.min delay T /\ (T < delay -> rep = RErr) /\ w_calls w' = w_calls w + 1.
+Proof.
+  intros T q w delay plain cond rest HT Hs Hd. unfold do_origin. rewrite Hs.
+  destruct (T <? delay) eqn:E; cbn [w_clock w_calls]; repeat split; try lia; intros; try reflexivity; lia.
+Qed.
+Print Assumptions C20_request_bounded.
+
+(* ---------- the goroutines ---------- *)
+Theorem C20_no_deadlock : forall cap answers s, (1 <= cap)%nat -> greach cap answers s ->
+  g_final s \/ exists s', gstep cap answers s s'.
+Proof. exact no_deadlock. Qed.
+Print Assumptions C20_no_deadlock.
+
+Theorem C20_short : forall cap answers n s, gsteps cap answers n g_init s -> (n <= 5)%nat.
+Proof. exact executions_are_short. Qed.
+Print Assumptions C20_short.
+
+(* together: every maximal execution ends, after at most five steps, with both goroutines returned *)
+Corollary C20_all_goroutines_end : forall cap answers n s, (1 <= cap)%nat ->
+  gsteps cap answers n g_init s -> (forall s', ~ gstep cap answers s s') -> g_final s /\ (n <= 5)%nat.
+Proof.
+  intros cap answers n s Hc Hs Hstuck. split; [|exact (executions_are_short _ _ _ _ Hs)].
+  destruct (no_deadlock cap answers s Hc) as [F|[s' St]]; [|exact F|exfalso; exact (Hstuck s' St)].
+  apply (gsteps_reach _ _ _ _ _ (GR_init cap answers) Hs).
+Qed.
+Print Assumptions C20_all_goroutines_end.
+
+Theorem C20_one_call : forall cap answers s, greach cap answers s -> g_calls s = 1%nat.
+Proof. exact one_origin_call. Qed.
+
+Theorem C20_unbuffered_can_leak : forall answers,
+  greach 0 answers stuck_state /\ ~ g_final stuck_state /\ forall s', ~ gstep 0 answers stuck_state s'.
+Proof. exact unbuffered_can_leak. Qed.
+
+Theorem C20_timing : forall x,
+  0 < xp_timeout x /\ 0 <= xp_cut x <= xp_timeout x /\
+  (match xp_latency x with Some d => 0 <= d | None => True end -> 0 <= xp_request_end x <= xp_timeout x) /\
+  so_fg_latency (swr_predict x) = 0 /\ so_bg_calls (swr_predict x) = 1 /\ so_goroutines_left (swr_predict x) = 0.
+Proof.
+  intros x. pose proof (request_end_bounds x) as [A B]. repeat split; try apply xp_timeout_pos; try apply A; try (apply B; assumption).
+Qed.
+Print Assumptions C20_timing.
+
+(* non-vacuity: a history that reaches the stale-while-revalidate path in the sequential semantics is part of
+   the generated cases of every run; here the goroutine system on a concrete schedule *)
+Example C20_schedule_example :
+  exists s, gsteps 1 true 5 g_init s /\ g_final s.
+Proof.
+  eexists. split.
+  - eapply GS_S; [apply G_ctx; reflexivity|].
+    eapply GS_S; [apply G_sup_ctx; reflexivity|].
+    eapply GS_S; [apply G_abort; reflexivity|].
+    eapply GS_S; [apply G_send_buffered; [reflexivity|cbn; lia]|].
+    eapply GS_S; [apply G_close; reflexivity|]. apply GS_0.
+  - split; reflexivity.
+Qed.
